@@ -42,6 +42,86 @@ def threshold_of(expr):
     return expr, None, 0, None
 
 
+def _len_threshold(fact):
+    """(var, k) when the fact says len(var) >= k, else None."""
+    k, t = fact
+    if k != "T":
+        return None
+    try:
+        e = ast.parse(t, mode="eval").body
+    except SyntaxError:
+        return None
+    if isinstance(e, ast.Compare) and len(e.ops) == 1 and isinstance(e.left, ast.Call) and isinstance(e.left.func, ast.Name) \
+            and e.left.func.id == "len" and e.left.args:
+        cmpv = e.comparators[0]
+        v, op = norm(e.left.args[0]), e.ops[0]
+        if isinstance(cmpv, ast.Constant) and isinstance(cmpv.value, int):
+            c = cmpv.value
+            if isinstance(op, ast.GtE):
+                return v, c
+            if isinstance(op, ast.Gt):
+                return v, c + 1
+        elif isinstance(cmpv, ast.Name) and isinstance(op, ast.GtE):
+            return v, cmpv.id
+    return None
+
+
+def _len_below(fact):
+    k, t = fact
+    if k != "T":
+        return None
+    try:
+        e = ast.parse(t, mode="eval").body
+    except SyntaxError:
+        return None
+    if isinstance(e, ast.Compare) and len(e.ops) == 1 and isinstance(e.left, ast.Call) and isinstance(e.left.func, ast.Name) \
+            and e.left.func.id == "len" and e.left.args:
+        cmpv = e.comparators[0]
+        v, op = norm(e.left.args[0]), e.ops[0]
+        if isinstance(cmpv, ast.Constant) and isinstance(cmpv.value, int):
+            c = cmpv.value
+            if isinstance(op, ast.Lt):
+                return v, c
+            if isinstance(op, ast.LtE):
+                return v, c + 1
+        elif isinstance(cmpv, ast.Name) and isinstance(op, ast.Lt):
+            return v, cmpv.id
+    return None
+
+
+def threshold_cases(cases):
+    """cases: [(leaf_expr, facts)].  Returns (stat_leaf, var, k, default_leaf) like threshold_of, whatever the
+    syntactic form (conditional expression, if/else, guard clause)."""
+    def best(xs):
+        ints = [x[1] for x in xs if isinstance(x[1], int)]
+        syms = [x[1] for x in xs if not isinstance(x[1], int)]
+        return syms[0] if syms else (max(ints) if ints else 0)
+    if len(cases) == 1:
+        leaf, f = cases[0]
+        th = [x for x in map(_len_threshold, f) if x]
+        return leaf, (th[0][0] if th else None), best(th), None
+    if len(cases) != 2:
+        return None
+    stat, dflt, var, k, kb = None, None, None, 0, None
+    rest = []
+    for leaf, f in cases:
+        th = [x for x in map(_len_threshold, f) if x and (not isinstance(x[1], int) or x[1] >= 1)]
+        be = [x for x in map(_len_below, f) if x]
+        if th and not be:
+            stat, var, k = leaf, th[0][0], best(th)
+        elif be:
+            dflt, kb, var = leaf, best(be), (var or be[0][0])
+        else:
+            rest.append(leaf)
+    if dflt is not None and stat is None and len(rest) == 1:
+        # guard clause `if len(x) < k: return default` followed by the statistic (facts about x may have been
+        # killed by a rebinding of x in between)
+        stat, k = rest[0], kb
+    if stat is None or dflt is None:
+        return None
+    return stat, var, k, dflt
+
+
 def stat_name(repo, fn, expr):
     """Identify the statistic computed by an expression: dotted numpy name, 'len', 'len(set)', 'mode1', 'index'."""
     e = expr
@@ -106,20 +186,18 @@ def vector_form(repo, fn):
             return rec
     if not rets:
         raise AnalysisError(f"{fn.qualname}: no return in the vector form")
-    early = rets[:-1]
-    final = rets[-1]
-    body, v, k, d = threshold_of(final.value)
+    from .forms import value_cases
+    x0 = fn.params[0]
+    cases = [(leaf, f) for node, leaf, f in value_cases(fn, "return")
+             if not any(k == "T" and t == f"isinstance({x0}, str)" for k, t in f) and any(node is r for r in rets)]
+    tc = threshold_cases(cases)
+    if tc is None:
+        raise AnalysisError(f"{fn.qualname}: cannot read threshold/default of the vector form from its {len(cases)} return case(s)")
+    body, v, k, d = tc
     rec["stat"] = stat_name(repo, fn, body)
     rec["k"] = k
     rec["d"] = norm_default(d)
     rec["thr_var"] = v
-    for r in early:
-        # early `if len(x) < k: return D`
-        facts = facts_at(fn, r)
-        for kk, t in facts:
-            pass
-        rec["why"].append(f"early return {norm(r.value)} at line {r.lineno}")
-        rec["early"] = rec.get("early", []) + [(r, norm_default(r.value))]
     return rec
 
 
@@ -140,7 +218,12 @@ def python_kernel_record(repo, fn):
         return rec
     if not ys:
         raise AnalysisError(f"{fn.qualname}: python kernel without yield")
-    body, v, k, d = threshold_of(ys[0].value)
+    from .forms import value_cases
+    cases = [(leaf, f) for node, leaf, f in value_cases(fn, "yield")]
+    tc = threshold_cases(cases)
+    if tc is None:
+        raise AnalysisError(f"{fn.qualname}: cannot read threshold/default of the python kernel from its {len(cases)} yield case(s)")
+    body, v, k, d = tc
     rec["stat"] = stat_name(repo, fn, body)
     rec["k"] = k
     rec["d"] = norm_default(d)
@@ -162,28 +245,30 @@ def numba_kernel_record(repo, fn):
     acc = rets[-1].value.id if rets else "out"
     apps = [n for n in ast.walk(main) if isinstance(n, ast.Call) and isinstance(n.func, ast.Attribute) and n.func.attr == "append"
             and norm(n.func.value) == acc]
-    ifs = [s for s in main.body if isinstance(s, ast.If)]
-    if ifs and len(apps) == 2:
-        t = ifs[0].test
-        rec["test"] = norm(t)
-        yes = [n for n in ast.walk(ast.Module(body=ifs[0].body, type_ignores=[])) if n in apps]
-        no = [n for n in ast.walk(ast.Module(body=ifs[0].orelse, type_ignores=[])) if n in apps]
-        if isinstance(t, ast.Compare) and len(t.ops) == 1 and norm(t.left).startswith("len("):
-            fake = ast.IfExp(test=t, body=yes[0].args[0] if yes else ast.Constant(None), orelse=no[0].args[0] if no else ast.Constant(None))
-            body, v, k, d = threshold_of(fake)
-            rec["k"], rec["d"] = k, norm_default(d)
-            rec["stat"] = stat_name(repo, fn, body)
-        else:
-            # explicit bounds test (nth): in range -> value, else -> default
-            rec["k"] = 1
-            rec["d"] = norm_default(no[0].args[0]) if no else None
-            rec["stat"] = stat_name(repo, fn, yes[0].args[0]) if yes else None
-        return rec
-    if len(apps) == 1:
-        body, v, k, d = threshold_of(apps[0].args[0])
+    from .forms import split_ifexp
+    from .facts import facts_at
+    cases = []
+    for ap in apps:
+        base = frozenset(facts_at(fn, ap))
+        from .facts import close_under_negation
+        for leaf, f in split_ifexp(ap.args[0]):
+            cases.append((leaf, frozenset(close_under_negation(base | f))))
+    tc = threshold_cases(cases)
+    if tc is not None:
+        body, v, k, d = tc
         rec["stat"] = stat_name(repo, fn, body)
         rec["k"], rec["d"] = k, norm_default(d)
         return rec
+    if len(cases) == 2:
+        # explicit bounds test (nth): in range -> value, else -> default
+        vals = [c for c in cases if not (isinstance(c[0], ast.Constant) and c[0].value is None)]
+        dfl = [c for c in cases if isinstance(c[0], ast.Constant) and c[0].value is None]
+        if len(vals) == 1 and len(dfl) == 1:
+            rec["k"] = 1
+            rec["d"] = norm_default(dfl[0][0])
+            rec["stat"] = stat_name(repo, fn, vals[0][0])
+            rec["test"] = sorted(t for k_, t in vals[0][1] if k_ == "T" and "index" in t)
+            return rec
     raise AnalysisError(f"{fn.qualname}: cannot recognise the per-group result of the numba kernel")
 
 
